@@ -138,6 +138,14 @@ Lemma nth_error_map_inv {X Y} (f : X -> Y) l k y : nth_error (map f l) k = Some 
   exists x, nth_error l k = Some x /\ y = f x.
 Proof. rewrite nth_error_map. destruct (nth_error l k) as [x|]; [|discriminate]. intros [= <-]. eauto. Qed.
 
+(* ONE multiplexer carrying the registers `ids`, driven by the root trace itself; the register reported as i
+   (locally r in its leaf) as this multiplexer would hold it *)
+Definition flat_inp (ids : list Z) (x : bus * list Z) : Mux.inp := mux_inp ids (snd x) (fst x).
+Definition flat_is (ids : list Z) (tr : btrace) : list Mux.inp := map (flat_inp ids) tr.
+Definition flat_reg (i : info) (r : Mux.reg) : Mux.reg :=
+  {| Mux.r_start := i_start i; Mux.r_stop := i_end i; Mux.r_width := Mux.r_width r;
+     Mux.r_rd := Mux.r_rd r; Mux.r_wr := Mux.r_wr r |}.
+
 Section Tree.
   Variables (n : csrnode) (h : chw) (l : list info).
   Hypothesis Hok : tree_ok n h l.
@@ -340,5 +348,120 @@ Section Tree.
       pose proof (Hexcl j u bu rvu i' ltac:(lia) Hjw Hu Hnu Hsu Hi' ltac:(lia)) as Hhit.
       apply Hne. destruct Hwf as (_ & Hlay & _).
       apply (MuxRead.layout_index_unique _ k' k r' r (addr bu - hl_base L) Hlay Hk' Hrk); lia.
+  Qed.
+
+  (* ---------------------------------------------------------------- against ONE multiplexer, literally *)
+
+  (* Any flat multiplexer cF that carries the register at its reported range (position kF) and is driven by
+     the root trace itself shows, at kF, the very strobes the tree's register shows: every trace. *)
+  Theorem tree_strobes_equal_flat i : In i l ->
+    exists L k r, reg_at (csr_aw n) h i L k r /\
+      forall cF idsF kF, nth_error (Mux.c_regs cF) kF = Some (flat_reg i r) ->
+      forall tr, in_range (csr_aw n) tr -> forall t b rv, nth_error tr t = Some (b, rv) ->
+      exists rd los lo, nth_error (csr_run h (cinit h) tr) t = Some (rd, los) /\ In lo los /\
+        lo_id lo = i_res i /\
+        nth_error (Mux.o_rstb (Mux.out cF (st_at cF (flat_is idsF tr) t) (flat_inp idsF (b, rv)))) kF
+          = Some (lo_rstb lo) /\
+        nth_error (Mux.o_wstb (Mux.out cF (st_at cF (flat_is idsF tr) t) (flat_inp idsF (b, rv)))) kF
+          = Some (lo_wstb lo).
+  Proof.
+    intros Hi. destruct (tree_strobes_flat i Hi) as (L & k & r & Hreg & Hall).
+    exists L, k, r. split; [exact Hreg|]. intros cF idsF kF HkF tr Hr t b rv Ht.
+    destruct (Hall tr Hr t b rv Ht) as (rd & los & lo & Hrun & Hlo & Hid & Hrs & Hws).
+    exists rd, los, lo. split; [exact Hrun|]. split; [exact Hlo|]. split; [exact Hid|]. split.
+    - rewrite (MuxBasic.r_strobe_exact _ _ _ _ _ HkF), Hrs. reflexivity.
+    - rewrite Hws. destruct t as [|t].
+      + unfold st_at. cbn [firstn Mux.state_after].
+        rewrite (MuxBasic.w_strobe_init _ _ _ _ HkF), last_write_nil, andb_false_r. reflexivity.
+      + destruct (nth_error tr t) as [[b1 rv1]|] eqn:E1.
+        * rewrite (MuxRead.st_at_S cF (flat_is idsF tr) t (flat_inp idsF (b1, rv1)) (map_nth_error _ _ _ E1)).
+          rewrite (MuxBasic.w_strobe_next _ _ _ _ _ _ HkF), (last_write_S tr t b1 rv1 _ E1).
+          cbn [flat_reg Mux.r_wr Mux.r_stop flat_inp mux_inp Mux.i_wstb Mux.i_addr fst].
+          rewrite andb_assoc. reflexivity.
+        * exfalso. apply nth_error_None in E1. assert (nth_error tr (S t) <> None) by congruence.
+          apply nth_error_Some in H. lia.
+  Qed.
+
+  (* Under the premises of tree_read_atomic the tree returns what the flat multiplexer returns (whose
+     readable registers all start at reported first addresses). *)
+  Theorem tree_read_equals_flat i L k r tr t0 t j b0 rv0 bt rvt cF idsF kF :
+    In i l -> reg_at (csr_aw n) h i L k r -> Mux.r_rd r = true -> in_range (csr_aw n) tr ->
+    nth_error tr t0 = Some (b0, rv0) -> r_stb b0 = true -> addr b0 = i_start i ->
+    (t0 <= t)%nat ->
+    (forall u bu rvu i', (t0 < u <= t)%nat -> nth_error tr u = Some (bu, rvu) -> r_stb bu = true ->
+                         In i' l -> addr bu <> i_start i') ->
+    nth_error tr t = Some (bt, rvt) -> r_stb bt = true -> addr bt = i_start i + j ->
+    0 <= j < i_end i - i_start i ->
+    wf_cfg cF -> Mux.c_dw cF = csr_dw n ->
+    nth_error (Mux.c_regs cF) kF = Some (flat_reg i r) -> nth_error idsF kF = Some (i_res i) ->
+    (forall rF, In rF (Mux.c_regs cF) -> exists i', In i' l /\ Mux.r_start rF = i_start i') ->
+    rdata_after h tr (S t) = rdata_at cF (flat_is idsF tr) (S t).
+  Proof.
+    intros Hi Hreg Hrd Hr Ht0 Hs0 Ha0 Hle Hquiet Ht Hst Hat Hj HwfF HdwF HkF HidF Hstarts.
+    rewrite (tree_read_atomic i L k r tr t0 t j b0 rv0 bt rvt Hi Hreg Hrd Hr Ht0 Hs0 Ha0 Hle Hquiet Ht Hst Hat Hj).
+    rewrite (MuxRead.read_atomic cF (flat_is idsF tr) t0 t kF (flat_reg i r) j
+               (flat_inp idsF (b0, rv0)) (flat_inp idsF (bt, rvt)) HwfF HkF Hrd (map_nth_error _ _ _ Ht0)).
+    - rewrite HdwF. cbn [flat_reg Mux.r_width]. f_equal. unfold rval_at, flat_is.
+      rewrite (map_nth_error _ _ _ Ht0). f_equal. cbn [flat_inp mux_inp Mux.i_rvals snd].
+      symmetry. exact (nth_map_ids (fun id => nth (Z.to_nat id) rv0 0) _ _ _ HidF).
+    - exact Hs0.
+    - exact Ha0.
+    - exact Hle.
+    - intros u Hu (inp & rF & Hn & HrF & _ & Hs' & Ha').
+      unfold flat_is in Hn. apply nth_error_map_inv in Hn as ([bu rvu] & Hnu & ->).
+      destruct (Hstarts rF HrF) as (i' & Hi' & Hsi').
+      apply (Hquiet u bu rvu i' Hu Hnu Hs' Hi'). cbn in Ha'. lia.
+    - exact (map_nth_error _ _ _ Ht).
+    - exact Hst.
+    - exact Hat.
+    - unfold Mux.reg_len. cbn [flat_reg Mux.r_start Mux.r_stop]. exact Hj.
+  Qed.
+
+  (* Under the premises of tree_write_atomic the register receives what it would receive on the flat
+     multiplexer (whose registers all occupy reported ranges). *)
+  Theorem tree_write_equals_flat i L k r tr t bt rvt (tj : Z -> nat) (dj : Z -> Z) cF idsF kF :
+    In i l -> reg_at (csr_aw n) h i L k r -> Mux.r_wr r = true -> in_range (csr_aw n) tr ->
+    nth_error tr t = Some (bt, rvt) -> w_stb bt = true -> addr bt = i_end i - 1 ->
+    (forall j, 0 <= j < i_end i - i_start i -> j * csr_dw n < Mux.r_width r ->
+       (tj j <= t)%nat /\
+       (exists bj rvj, nth_error tr (tj j) = Some (bj, rvj) /\ w_stb bj = true /\ addr bj = i_start i + j /\
+                       dj j = trunc (csr_dw n) (w_data bj)) /\
+       (forall u bu rvu, (tj j < u <= t)%nat -> nth_error tr u = Some (bu, rvu) ->
+                         ~ (w_stb bu = true /\ addr bu = i_start i + j))) ->
+    (forall j u bu rvu i', 0 <= j < i_end i - i_start i -> j * csr_dw n < Mux.r_width r ->
+       (tj j < u <= t)%nat -> nth_error tr u = Some (bu, rvu) -> w_stb bu = true ->
+       In i' l -> i_start i' <= addr bu < i_end i' -> i_start i <= addr bu < i_end i) ->
+    wf_cfg cF -> Mux.c_dw cF = csr_dw n -> nth_error (Mux.c_regs cF) kF = Some (flat_reg i r) ->
+    (forall rF, In rF (Mux.c_regs cF) -> exists i', In i' l /\ Mux.r_start rF = i_start i' /\ Mux.r_stop rF = i_end i') ->
+    forall b' rv', nth_error tr (S t) = Some (b', rv') ->
+    exists rd los lo, nth_error (csr_run h (cinit h) tr) (S t) = Some (rd, los) /\ In lo los /\
+      lo_id lo = i_res i /\ lo_wstb lo = true /\
+      lo_wdata lo = Mux.elem_wdata cF (st_at cF (flat_is idsF tr) (S t)) (flat_reg i r).
+  Proof.
+    intros Hi Hreg Hwr Hr Ht Hst Hat Hchunks Hexcl HwfF HdwF HkF Hranges b' rv' Ht'.
+    destruct (tree_write_atomic i L k r tr t bt rvt tj dj Hi Hreg Hwr Hr Ht Hst Hat Hchunks Hexcl b' rv' Ht')
+      as (rd & los & lo & H1 & H2 & H3 & H4 & H5).
+    exists rd, los, lo. repeat (split; [assumption|]). rewrite H5.
+    replace (i_end i - i_start i) with (Mux.reg_len (flat_reg i r)) by reflexivity.
+    rewrite <- HdwF. change (Mux.r_width r) with (Mux.r_width (flat_reg i r)). symmetry.
+    apply (MuxWrite.write_atomic cF (flat_is idsF tr) t kF (flat_reg i r) (flat_inp idsF (bt, rvt)) tj dj HwfF HkF Hwr
+             (map_nth_error _ _ _ Ht)).
+    - exact Hst.
+    - exact Hat.
+    - intros j Hj Hjw. unfold Mux.reg_len in Hj. cbn [flat_reg Mux.r_start Mux.r_stop Mux.r_width] in Hj, Hjw.
+      rewrite HdwF in Hjw. destruct (Hchunks j Hj Hjw) as (Hle & (bj & rvj & Hnj & Hsj & Haj & Hdj) & Hlast).
+      split; [exact Hle|]. split.
+      + exists (flat_inp idsF (bj, rvj)). split; [exact (map_nth_error _ _ _ Hnj)|].
+        rewrite HdwF. cbn. auto.
+      + intros u inp Hu Hn [Hw Ha]. unfold flat_is in Hn. apply nth_error_map_inv in Hn as ([bu rvu] & Hnu & ->).
+        exact (Hlast u bu rvu Hu Hnu (conj Hw Ha)).
+    - intros j u Hj Hjw Hu (inp & k' & r' & Hn & Hk' & Hne & _ & Hw & Ha).
+      unfold Mux.reg_len in Hj. cbn [flat_reg Mux.r_start Mux.r_stop Mux.r_width] in Hj, Hjw. rewrite HdwF in Hjw.
+      unfold flat_is in Hn. apply nth_error_map_inv in Hn as ([bu rvu] & Hnu & ->).
+      cbn [flat_inp mux_inp Mux.i_wstb Mux.i_addr fst] in Hw, Ha.
+      destruct (Hranges r' (nth_error_In _ _ Hk')) as (i' & Hi' & Hs' & He').
+      pose proof (Hexcl j u bu rvu i' Hj Hjw Hu Hnu Hw Hi' ltac:(lia)) as Hhit.
+      apply Hne. destruct HwfF as (_ & Hlay & _).
+      apply (MuxRead.layout_index_unique _ k' kF r' (flat_reg i r) (addr bu) Hlay Hk' HkF); [lia|exact Hhit].
   Qed.
 End Tree.
